@@ -32,7 +32,6 @@ import (
 	context_manager "lunar/toolkit-core/context-manager"
 
 	"github.com/rs/zerolog/log"
-	"github.com/samber/lo"
 )
 
 const (
@@ -269,7 +268,7 @@ func (rd *HandlingDataManager) initializeStreams() (err error) {
 	// Unmanaging HAProxy endpoints should occur after all possible transactions have reached Engine
 	if previousHaProxyReq != nil &&
 		len(previousHaProxyReq.ManagedEndpoints) > 0 {
-		haproxyEndpointsToRemove, _ := lo.Difference(
+		haproxyEndpointsToRemove := config.EndpointsToUnmanage(
 			previousHaProxyReq.ManagedEndpoints,
 			newHAProxyEndpoints.ManagedEndpoints,
 		)
